@@ -40,7 +40,7 @@ CONSTANTS
   Procs,      \* set of process ids, e.g. {1} or {1,2}
   MaxCalls,   \* total number of API calls in a behaviour
   Family,     \* which set of target types the calls range over (string)
-  Methods,    \* subset of {"fields","value","translate","decode","raw","tval","tdef"}
+  Methods,    \* subset of {"fields","value","translate","decode","raw","tval","tdef","reset"}
   Gran,       \* "lock": preemption between any two mutex sections (design check)
               \* "hook": preemption only where the real code has the verif hook
               \*         (after a NameDef inside DecodeTypeValue) and between calls
@@ -300,21 +300,24 @@ TieFam == {A1, Nm("m", P(1)), XY, Un(<<XY, A1>>), Un(<<A1, XY>>), Un(<<A1, P(1)>
 \* Concurrent decoders that use the same type name.
 ConcFam == {A1, A2, Rec(<<"a", "b">>, <<A1, A1>>), Rec(<<"a", "b">>, <<A2, A2>>), MapOf(A1, A1),
             Rec(<<"a", "b">>, <<NN, NN>>)}
+ConcSmall == {A2, Rec(<<"a", "b">>, <<A1, A1>>), Rec(<<"a", "b">>, <<NN, NN>>)}
 
 Targets == CASE Family = "level1" -> Level1
              [] Family = "named"  -> NamedFam
              [] Family = "nest"   -> NestFam
              [] Family = "tie"    -> TieFam
              [] Family = "conc"   -> ConcFam
+             [] Family = "conc-small" -> ConcSmall
              [] Family = "all"    -> Level1 \cup NamedFam \cup NestFam \cup TieFam
 
-Calls == [m : Methods \ {"tdef"}, ot : Targets, nm : {""}]
+Calls == [m : Methods \ {"tdef", "reset"}, ot : Targets, nm : {""}]
          \cup (IF "tdef" \in Methods THEN [m : {"tdef"}, ot : {NoT}, nm : TypeNames] ELSE {})
+         \cup (IF "reset" \in Methods THEN {[m |-> "reset", ot |-> NoT, nm |-> ""]} ELSE {})
 
 \* Per-call constants (evaluated once by TLC): the term as its source context
 \* stores it, its serialization/decoder program, its structure.
 InfoL == [call \in Calls |->
-           IF call.m = "tdef" THEN [sd |-> NoT, ser |-> Ser(P(1), NoDefs), raw |-> Ser(P(1), NoDefs), norm |-> NoT, kids |-> <<>>]
+           IF call.m \in {"tdef", "reset"} THEN [sd |-> NoT, ser |-> Ser(P(1), NoDefs), raw |-> Ser(P(1), NoDefs), norm |-> NoT, kids |-> <<>>]
            ELSE [sd   |-> SortDeep(call.ot),
                  ser  |-> Ser(SortDeep(call.ot), NoDefs),
                  raw  |-> Ser(call.ot, NoDefs),
@@ -351,6 +354,7 @@ CallProg(nrm, call, b) ==
          <<Ins("check", inf.raw.out, 0)>> \o inf.raw.prog \o <<Ins("enter", inf.raw.out, b)>>
     [] call.m = "tval"   -> <<Ins("tval", <<>>, FindId(nrm, inf.norm))>>
     [] call.m = "tdef"   -> <<Ins("tdef", <<call.nm>>, 0)>>
+    [] call.m = "reset"  -> <<Ins("reset", <<>>, 0)>>
 
 \* ------------------------------------------------------------- one section
 \* Exec runs the pushes and then one mutex section.  Result: new context,
@@ -377,6 +381,7 @@ Exec(c, pr0, st0, ld, decoding, wasRacy) ==
          [base EXCEPT !.st = Append(st, id), !.race = (id # ld[ins.s[1]]),
                       !.t = IF id # ld[ins.s[1]] THEN {"race"} ELSE {}]
     [] ins.op = "tdef" -> [base EXCEPT !.st = Append(st, c.typedefs[ins.s[1]])]
+    [] ins.op = "reset" -> [base EXCEPT !.c = EmptyCx, !.st = <<0>>]        \* Context.Reset
     [] ins.op = "tval" -> [base EXCEPT !.st = Append(st, ins.n), !.rb = c.toValue[ins.n].b]
     [] ins.op = "check" ->                                \* first section of LookupByValue
          IF ins.s \in DOMAIN c.toType THEN [base EXCEPT !.st = <<c.toType[ins.s]>>, !.pr = <<>>]
@@ -470,7 +475,8 @@ Step(p) ==
      /\ taint' = taint \cup r.t
      /\ turn' = IF yield THEN 0 ELSE p
      /\ h' = Append(h, ev)
-     /\ Emit(h', cx', taint')
+     \* the real state can be observed (and compared) only where the call is parked or done
+     /\ IF yield THEN Emit(h', cx', taint') ELSE TRUE
   /\ UNCHANGED <<ncalls, live>>
 
 \* The caller reuses a byte slice it handed to LookupByValue: every toValue
@@ -533,7 +539,7 @@ KeysDenote ==
 \* by bare decoding, in any context state ("anywhere"), unless that very call
 \* read a typedef rebound by a concurrent call (the modelled race).
 Denotes(ev) ==
-  \/ ~ev.fin \/ ev.m \in {"tval", "tdef"} \/ ev.racy \/ "poison" \in taint
+  \/ ~ev.fin \/ ev.m \in {"tval", "tdef", "reset"} \/ ev.racy \/ "poison" \in taint
   \/ (ev.r = 0 /\ HasDup(ev.ot.s))
   \/ (ev.r \in Ids(cx) /\ Norm(OS(cx.byID, ev.r)) = Norm(ev.ot))
 \* byID only grows, so it suffices to look at the event just appended.
